@@ -3,6 +3,7 @@ import inst_check
 
 ASSUMPTIONS = [
     "ways of failing exercised: ill-typed value at each argument position, missing index/key/element, unknown keyword, a user callback (transform, attribute transform, preparer, item preparer, default factory, __post_init__, __post_copy__) raising at its 1st..3rd invocation",
+    "validators of validated(...)/bounded(...) attribute, element and key types (raising at their 1st..6th invocation within the operation, or no longer accepting a stored value) are exercised on the implementation only (harness/c04_validated.py): the instance model has no validated types",
     "KeyedList/KeyedSet-typed attributes are covered by C13/C14, not by this model",
     "open findings (KNOWN_FINDINGS.json): multi-keyword update/transform with _inplace=True",
 ]
@@ -122,9 +123,25 @@ def _post(chk, cases, bad, extra):
     keyed_explore.explore(chk, extra, "C04")
     import wide_explore
     wide_explore.explore(chk, extra, "C04")
+    # validated(...)/bounded(...) attribute and element types: the validator is a user callback
+    # inside every type check; it raises at its n-th invocation or stops accepting a stored value
+    import c04_validated
+    c04_validated.explore(chk, extra, "C04")
+
+
+def _probe_replay(path):
+    import json
+    try:
+        with open(path) as fh:
+            return json.load(fh).get("kind") == "validated-zoo"
+    except (OSError, ValueError, AttributeError):
+        return False
 
 
 def main(tier, replay=None):  # noqa: F811
+    if replay and _probe_replay(replay):
+        import c04_validated
+        return c04_validated.replay("C04", replay)
     if replay:
         return inst_check.replay("C04", replay, 16)
     import inst_gen as ig
